@@ -10,6 +10,7 @@ import (
 	"context"
 	"encoding/json"
 	"fmt"
+	"math"
 	"reflect"
 	"slices"
 	"sort"
@@ -401,6 +402,125 @@ func c16Canon(raw []byte) string {
 	return string(b)
 }
 
+// ---- integers beyond 2^53: "receives exactly those values" / "equal to the JSON of the handler's output"
+
+type c16Big struct {
+	N int64  `json:"n"`
+	T string `json:"t,omitempty"`
+}
+
+func c16BigInts(t *testing.T, env *verifx.Env, res *verifx.Result) {
+	cases := env.NewCases(res, "integers-beyond-2^53")
+	ctx := context.Background()
+	var seen []int64
+	var ret int64
+	s := NewServer(&Implementation{Name: "srv", Version: "1"}, &ServerOptions{Logger: quietLogger})
+	record := func(ctx context.Context, r *CallToolRequest, v c16Big) (*CallToolResult, any, error) {
+		seen = append(seen, v.N)
+		return &CallToolResult{}, nil, nil
+	}
+	AddTool(s, &Tool{Name: "in-inferred"}, record)
+	AddTool(s, &Tool{Name: "in-explicit-with-default", InputSchema: c16Schema{"type": "object", "properties": c16Schema{"n": c16Schema{"type": "integer"}, "t": c16Schema{"type": "string", "default": "d"}}, "required": []any{"n"}}}, record)
+	AddTool(s, &Tool{Name: "out-struct"}, func(ctx context.Context, r *CallToolRequest, v map[string]any) (*CallToolResult, c16Big, error) {
+		return nil, c16Big{N: ret}, nil
+	})
+	AddTool(s, &Tool{Name: "out-map"}, func(ctx context.Context, r *CallToolRequest, v map[string]any) (*CallToolResult, map[string]int64, error) {
+		return nil, map[string]int64{"n": ret}, nil
+	})
+	// what the server puts on the wire (the client's StructuredContent is an `any`, whose
+	// numbers a Go client decodes as float64: that is the client's business, not the tool's)
+	var sent string
+	s.AddReceivingMiddleware(func(next MethodHandler) MethodHandler {
+		return func(ctx context.Context, method string, req Request) (Result, error) {
+			res, err := next(ctx, method, req)
+			if r, ok := res.(*CallToolResult); ok && err == nil {
+				b, _ := json.Marshal(r.StructuredContent)
+				sent = string(b)
+			}
+			return res, err
+		}
+	})
+	ct, st := NewInMemoryTransports()
+	ss, err := s.Connect(ctx, st, nil)
+	if err != nil {
+		t.Fatal(err)
+	}
+	defer ss.Close()
+	c := NewClient(&Implementation{Name: "cli", Version: "1"}, &ClientOptions{Logger: quietLogger})
+	cs, err := c.Connect(ctx, ct, &ClientSessionOptions{ProtocolVersion: "2025-06-18"})
+	if err != nil {
+		t.Fatal(err)
+	}
+	defer cs.Close()
+	values := []int64{1<<53 - 1, 1 << 53, 1<<53 + 1, -(1<<53 + 1), 1<<62 + 1, math.MaxInt64, math.MinInt64, math.MinInt64 + 1}
+	// other spellings of integers (valid for an integer schema) and non-integers, as raw JSON text
+	for _, sp := range []struct {
+		text  string
+		valid bool
+		n     int64
+	}{{"7.0", true, 7}, {"7.00", true, 7}, {"1e1", true, 10}, {"1E1", true, 10}, {"-0", true, 0}, {"-0.0", true, 0}, {"120e-1", true, 12}, {"9007199254740992.0", true, 1 << 53},
+		{"1.5", false, 0}, {"1e-1", false, 0}, {`"7"`, false, 0}} {
+		for _, tool := range []string{"in-inferred", "in-explicit-with-default"} {
+			idx, mine := cases.Next()
+			if !mine {
+				continue
+			}
+			desc := fmt.Sprintf("tool=%s arguments={\"n\":%s}", tool, sp.text)
+			seen = nil
+			r, err := cs.CallTool(ctx, &CallToolParams{Name: tool, Arguments: json.RawMessage(`{"n":` + sp.text + `}`)})
+			switch {
+			case err != nil:
+				cases.Violate(idx, "c16 number-spelling call-failed "+tool, fmt.Sprintf("%v [%s]", err, desc), 1)
+			case sp.valid && (r.IsError || len(seen) != 1 || seen[0] != sp.n):
+				cases.Violate(idx, "c16 number-spelling valid-integer-rejected-or-altered "+tool, fmt.Sprintf("%s is an integer under JSON Schema; IsError=%v, the handler saw %v, want %d [%s]", sp.text, r.IsError, seen, sp.n, desc), 1)
+			case !sp.valid && (!r.IsError || len(seen) != 0):
+				cases.Violate(idx, "c16 number-spelling invalid-reached-handler "+tool, fmt.Sprintf("%s is not an integer; IsError=%v, the handler saw %v [%s]", sp.text, r.IsError, seen, desc), 1)
+			default:
+				cases.Record(idx, fmt.Sprintf("spelling valid=%v %s", sp.valid, tool), 1, func() string { return desc })
+			}
+		}
+	}
+	for _, tool := range []string{"in-inferred", "in-explicit-with-default", "out-struct", "out-map"} {
+		for _, n := range values {
+			idx, mine := cases.Next()
+			if !mine {
+				continue
+			}
+			desc := fmt.Sprintf("tool=%s n=%d", tool, n)
+			seen, ret = nil, n
+			args := json.RawMessage(fmt.Sprintf(`{"n":%d}`, n))
+			if strings.HasPrefix(tool, "out-") {
+				args = json.RawMessage(`{}`)
+			}
+			r, err := cs.CallTool(ctx, &CallToolParams{Name: tool, Arguments: args})
+			switch {
+			case err != nil || r.IsError:
+				cases.Violate(idx, "c16 big-integer call-failed "+tool, fmt.Sprintf("%v %+v [%s]", err, r, desc), 1)
+			case strings.HasPrefix(tool, "in-"):
+				if len(seen) != 1 || seen[0] != n {
+					cases.Violate(idx, "c16 big-integer handler-saw-other-value "+tool, fmt.Sprintf("arguments {\"n\":%d} are valid under the schema; the handler saw n=%v [%s]", n, seen, desc), 1)
+				} else {
+					cases.Record(idx, "exact "+tool, 1, func() string { return desc })
+				}
+			default:
+				sc := sent
+				want := fmt.Sprintf(`"n":%d`, n)
+				text := ""
+				if len(r.Content) == 1 {
+					if tc, ok := r.Content[0].(*TextContent); ok {
+						text = tc.Text
+					}
+				}
+				if !strings.Contains(sc, want) || !strings.Contains(text, want) {
+					cases.Violate(idx, "c16 big-integer output-altered "+tool, fmt.Sprintf("the handler returned n=%d; the structured content sent is %s, text rendering %q [%s]", n, sc, text, desc), 1)
+				} else {
+					cases.Record(idx, "exact "+tool, 1, func() string { return desc })
+				}
+			}
+		}
+	}
+}
+
 func TestVerifC16(t *testing.T) {
 	env := verifx.LoadEnv("C16")
 	res := env.NewResult()
@@ -410,6 +530,7 @@ func TestVerifC16(t *testing.T) {
 	c16Suite(t, env, res, "", false)
 	c16Suite(t, env, res, "/schema-cache", true)
 	c16Suite(t, env, res, "/retry-round-with-input-responses", false)
+	c16BigInts(t, env, res)
 	env.Finish(res)
 }
 
